@@ -255,7 +255,17 @@ ASSUMPTIONS = (
 
 def obligations(tier):
     n = 8 if tier == "quick" else 13
-    return [
+    extra = []
+    if tier == "thorough":
+        extra = [
+            Ob(name="E1-rule-matches-registered-id-vs-free-pattern", engine="xh", module="props.xhk", fn="c04_registered_rule_vs_free_pattern",
+               functions=["rule_matcher.rule_matches/_matches_pattern_directly/_matches_via_alias"], deciding=False, timeout=240,
+               bounds="CrossHair: pattern a symbolic str, len <= 3 over the alphabet cCqQsS.*, rule id one of 5 registered ids (hunting: a timeout claims nothing)"),
+            Ob(name="E1-direct-match-vs-reference", engine="xh", module="props.xhk", fn="c04_direct_match_agrees_with_reference",
+               functions=["rule_matcher._matches_pattern_directly"], deciding=False, timeout=240,
+               bounds="CrossHair: rule id and pattern symbolic strs, len <= 3 over aB.* (hunting)"),
+        ]
+    return extra + [
         Ob(name="K1-rule-name-spellings", engine="pathex", harness=h_rule_names,
            functions=["rule_matcher.rule_matches/_matches_pattern_directly/_matches_via_alias/_pattern_matches_deprecated_id",
                       "check_bracket_rules", "check_space_separated_rules", "rules_match_violation"],
